@@ -291,18 +291,18 @@ PRE_EDIT_KINDS = ('rep-append', 'rep-insert', 'rep-extend', 'rep-pop', 'rep-deli
                   'tok-value', 'numop', 'value-set', 'meta-setkey', 'cost-set')
 
 
-def run_doc(ctx, text, auto, nrandom, sweep_frac, *, calls=None, pre=None, n_pre=0, pre_out=None, lf=None):
+def run_doc(ctx, text, auto, nrandom, sweep_frac, *, calls=None, pre=None, n_pre=0, pre_out=None, lf=None, copy_first=False):
     """(`lf`: the store's load factor for this document - small values cut it into many blocks, so that the three-token
     stretches the claim functions re-splice straddle block boundaries.)"""
     import session
     session.set_lf(lf)
     try:
-        return _run_doc(ctx, text, auto, nrandom, sweep_frac, calls=calls, pre=pre, n_pre=n_pre, pre_out=pre_out, lf=lf)
+        return _run_doc(ctx, text, auto, nrandom, sweep_frac, calls=calls, pre=pre, n_pre=n_pre, pre_out=pre_out, lf=lf, copy_first=copy_first)
     finally:
         session.set_lf(None)
 
 
-def _run_doc(ctx, text, auto, nrandom, sweep_frac, *, calls=None, pre=None, n_pre=0, pre_out=None, lf=None):
+def _run_doc(ctx, text, auto, nrandom, sweep_frac, *, calls=None, pre=None, n_pre=0, pre_out=None, lf=None, copy_first=False):
     """One document.  With `calls` given: replay exactly those.  Returns (signature, description, calls so far) or None.
     `pre` / `n_pre`: edits applied right after parsing, BEFORE anything is read: the non-edit calls are then judged on a
     document in a state only edits reach, with no view or cached property created yet."""
@@ -331,6 +331,11 @@ def _run_doc(ctx, text, auto, nrandom, sweep_frac, *, calls=None, pre=None, n_pr
                 edits.apply_op(root, op)
             except Exception:
                 pass
+    if copy_first:
+        # the document under test is a deep copy (its store is built in one go: the tokens spread evenly over the blocks,
+        # so the first block can sit at half the load factor - a layout the parser never produces)
+        import copy as _copy
+        root = _copy.deepcopy(root)
     foreign_file = edits.P().parse('; foreign\n', models.File, auto_claim_comments=False)
     foreign = [t for t in foreign_file.token_store if isinstance(t, models.BlockComment)][0]
     snap = Snap(root)
@@ -340,7 +345,7 @@ def _run_doc(ctx, text, auto, nrandom, sweep_frac, *, calls=None, pre=None, n_pr
     def step(call):
         nonlocal nodes
         if ctx is not None and hasattr(ctx, 'current'):
-            ctx.current({'text': text, 'auto': auto, 'calls': history[-30:] + [call], 'pre': pre or [], 'lf': lf})
+            ctx.current({'text': text, 'auto': auto, 'calls': history[-30:] + [call], 'pre': pre or [], 'lf': lf, 'copy_first': copy_first})
         out = do_call(root, nodes, call, foreign)
         history.append(call)
         if ctx is not None:
@@ -401,7 +406,8 @@ def _run(ctx, ndocs, nrandom, sweep_frac, trace=True):
             auto = ctx.rng.random() < 0.5
             pre = []
             lf = ctx.rng.choice([3, 4, 5, 6, 8]) if ctx.rng.random() < 0.4 else None
-            res = run_doc(ctx, text, auto, nrandom, sweep_frac, n_pre=ctx.rng.choice([0, 0, 1, 2, 4]), pre_out=pre, lf=lf)
+            cf = lf is not None and ctx.rng.random() < 0.3
+            res = run_doc(ctx, text, auto, nrandom, sweep_frac, n_pre=ctx.rng.choice([0, 0, 1, 2, 4]), pre_out=pre, lf=lf, copy_first=cf)
             if res == 'rejected':
                 ctx.count('doc:rejected')
                 continue
@@ -411,10 +417,10 @@ def _run(ctx, ndocs, nrandom, sweep_frac, trace=True):
                 last = history[-1]
                 slim = _slim_history(history)
                 # confirm the slimmed history still fails; otherwise keep everything
-                again = run_doc(None, text, auto, 0, 0, calls=slim, pre=pre, lf=lf)
+                again = run_doc(None, text, auto, 0, 0, calls=slim, pre=pre, lf=lf, copy_first=cf)
                 if not again or again == 'rejected' or again[0] != sig:
                     slim = history
-                ctx.oracle_fail(f'C04:{sig}:{last[0]}:{last[2] or ""}', f'{what} after {last}', {'text': text, 'auto': auto, 'calls': slim, 'pre': pre, 'lf': lf})
+                ctx.oracle_fail(f'C04:{sig}:{last[0]}:{last[2] or ""}', f'{what} after {last}', {'text': text, 'auto': auto, 'calls': slim, 'pre': pre, 'lf': lf, 'copy_first': cf})
     if trace:
         tr.diff(ctx, 'comments-lockstep')
 
@@ -445,8 +451,57 @@ def _probe_states(ctx):
                 ctx.oracle_fail(f'C04:{sig}:{last[0]}:{last[2] or ""}', f'{what} after {last} [edited state]', {'text': text, 'auto': auto, 'calls': history[-30:], 'pre': ops})
 
 
+def _copy_grid(ctx):
+    """Deep copies under every load factor 4..24: documents of 1-3 transactions with a comment between the meta block and
+    the first posting (a claim there really moves a zero-width mark); the whole battery of non-edit calls on the COPY."""
+    for lf in range(4, 25):
+        for k in (1, 2, 3):
+            text = ''.join(f'2000-01-0{i + 1} * "n{i}"\n  kk: {i}\n  ; between\n  Assets:A{i}  1 USD\n  ; tail\n' for i in range(k))
+            for auto in (True, False):
+                res = run_doc(ctx, text, auto, 0, 1.0, lf=lf, copy_first=True)
+                ctx.count('copy-grid')
+                if res not in (None, 'rejected'):
+                    sig, what, history = res
+                    last = history[-1]
+                    ctx.oracle_fail(f'C04:{sig}:{last[0]}:{last[2] or ""}', f'{what} after {last} [deep copy, load factor {lf}]',
+                                    {'text': text, 'auto': auto, 'calls': history[-30:], 'pre': [], 'lf': lf, 'copy_first': True})
+                    return
+    # ... and with the load factor set to (number of tokens - 1): the copy's first block then holds exactly half the load
+    # factor - the one layout in which a claim (a same-size splice) makes the first block fold into the second
+    import copy as _copy
+    for k in (1, 2, 3):
+        for extra in ('', ' ; c', ' #t', ' #t ^l'):
+            text = ''.join(f'2000-01-0{i + 1} * "n{i}"{extra}\n  kk: {i}\n  ; between\n  Assets:A{i}  1 USD\n  ; tail\n' for i in range(k))
+            for auto in (True, False):
+                n = len(list(_copy.deepcopy(edits.P().parse(text, models.File, auto_claim_comments=auto)).token_store))
+                probe = edits.P().parse(text, models.File, auto_claim_comments=auto)
+                nodes = nodes_of(probe)
+                claims = []
+                for i, m in enumerate(nodes):
+                    if isinstance(m, internal.SurroundingCommentsMixin):
+                        claims += [[['claim', i, a, 1]] for a in ('claim_leading_comment', 'claim_trailing_comment')]
+                        claims += [[['claim', i, 'un' + a, 0], ['claim', i, a, 1]] for a in ('claim_leading_comment', 'claim_trailing_comment')]
+                    if not isinstance(m, (base.RawTokenModel, internal.Repeated)):
+                        for raw, (f_, wc) in intro.api_props(type(m))['rep'].items():
+                            if wc:
+                                claims += [[['wrap', i, raw, 'claim_interleaving_comments']],
+                                           [['wrap', i, raw, 'unclaim_interleaving_comments'], ['wrap', i, raw, 'claim_interleaving_comments']]]
+                claims.append([['auto', 0, None, None]])
+                for lf, calls in [(lf, c) for lf in (n - 1, n - 2) if lf >= 4 for c in claims]:
+                    # every claim on a FRESH copy: it is the first same-size splice in the first block that matters
+                    res = run_doc(ctx, text, auto, 0, 0, lf=lf, copy_first=True, calls=calls)
+                    ctx.count('copy-grid')
+                    if res not in (None, 'rejected'):
+                        sig, what, history = res
+                        last = history[-1]
+                        ctx.oracle_fail(f'C04:{sig}:{last[0]}:{last[2] or ""}', f'{what} after {last} [deep copy of {n} tokens, load factor {lf}]',
+                                        {'text': text, 'auto': auto, 'calls': history[-30:], 'pre': [], 'lf': lf, 'copy_first': True})
+                        return
+
+
 def run(ctx):
     _probe_states(ctx)
+    _copy_grid(ctx)
     import claimprobes
     claimprobes.run_handover(ctx, ['nonedit'])
     claimprobes.run(ctx, oracles=('nonedit',))
@@ -461,5 +516,5 @@ def replay(ctx, data):
     rep = data.get('replay') or data.get('first_diverging_replay') or data
     if 'calls' not in rep:
         return False
-    res = run_doc(None, rep['text'], rep['auto'], 0, 0, calls=rep['calls'], pre=rep.get('pre'), lf=rep.get('lf'))
+    res = run_doc(None, rep['text'], rep['auto'], 0, 0, calls=rep['calls'], pre=rep.get('pre'), lf=rep.get('lf'), copy_first=rep.get('copy_first', False))
     return res is None
